@@ -132,6 +132,7 @@ type built struct {
 	inv     *[]string
 	env     *env
 	conErr  string // panic while constructing
+	last    obs    // observation of the most recent request
 	pageRef string // body served by GET on the first page location (consistency reference)
 }
 
@@ -430,6 +431,7 @@ func (b *built) run(method, target, body string) verdict {
 		*b.next = recNext{in: req}
 	}
 	o := serve(b.h, req, nil)
+	b.last = o
 	if o.Panic != "" {
 		return verdict{Class: "panic", What: "serving panicked: " + o.Panic, Outcome: "panic"}
 	}
@@ -491,6 +493,7 @@ func (b *built) judgeAPI(req *http.Request, method, target, body, p string, locs
 		e.cache[key] = tw
 	}
 	o := serve(b.h, req, b.inv)
+	b.last = o
 	if o.Panic != "" && tw.Panic == "" {
 		return verdict{Class: "panic", What: "serving panicked: " + o.Panic, Outcome: "panic"}
 	}
@@ -537,8 +540,53 @@ func (b *built) judgeAPI(req *http.Request, method, target, body, p string, locs
 	return verdict{Class: cl, What: what, Outcome: "bad-answer", Answered: true}
 }
 
+// checkSeq decides a construction-sequence case: the handler built from c.Cfg has to answer the
+// request exactly as a handler built alone does (and correctly), no matter which other middlewares
+// were constructed in the same process before it (c.Before) or after it (c.Then). Differential:
+// no expected value beyond the plain oracle is needed.
+func checkSeq(c Case) (string, string) {
+	envs := map[string]*env{}
+	bld := func(cfg Config) *built {
+		var e *env
+		if cfg.api() {
+			k := envKey(cfg)
+			if e = envs[k]; e == nil {
+				e = newEnv(cfg)
+				envs[k] = e
+			}
+		}
+		return build(cfg, e)
+	}
+	solo := bld(c.Cfg)
+	if v := solo.run(c.Method, c.Target, c.Body); v.Class != "" {
+		return v.Class, v.What
+	}
+	ref := solo.last
+	for _, x := range c.Before {
+		bld(x)
+	}
+	b := bld(c.Cfg)
+	v0 := b.run(c.Method, c.Target, c.Body)
+	if v0.Class != "" || !sameObs(b.last, ref) {
+		return "construction-order-dependent", fmt.Sprintf("built after %d other middlewares the handler answers %d %q (%s %s); built alone it answers %d %q",
+			len(c.Before), b.last.Status, short(b.last.Body), v0.Class, short(v0.What), ref.Status, short(ref.Body))
+	}
+	for _, x := range c.Then {
+		bld(x)
+	}
+	v1 := b.run(c.Method, c.Target, c.Body)
+	if v1.Class != "" || !sameObs(b.last, ref) {
+		return "answer-changed-by-later-construction", fmt.Sprintf("after %d more middlewares were constructed the handler answers %d %q (%s %s); before, and built alone, it answered %d %q",
+			len(c.Then), b.last.Status, short(b.last.Body), v1.Class, short(v1.What), ref.Status, short(ref.Body))
+	}
+	return "", ""
+}
+
 // check decides one case from scratch (used by replay and to confirm every failure).
 func check(c Case) (string, string) {
+	if len(c.Before)+len(c.Then) > 0 {
+		return checkSeq(c)
+	}
 	b := build(c.Cfg, nil)
 	v := b.run(c.Method, c.Target, c.Body)
 	return v.Class, v.What
